@@ -199,7 +199,10 @@ fn viol(rep: &mut Report, sig: &str, detail: String) {
 
 /// Continue the recorded history under the current code, judging what property `prop` covers.
 pub fn run(rep: &mut Report, prop: &str) {
-    let mut l = match load() {
+    // (the script runs the current tree's constructors; if the tree is broken enough for the test
+    // host to panic there, the ordinary workloads report it - here it only means "not applicable")
+    let loaded = std::panic::catch_unwind(std::panic::AssertUnwindSafe(load)).unwrap_or_else(|_| Err("the script panicked on the current tree".into()));
+    let mut l = match loaded {
         Ok(l) => l,
         Err(e) => {
             rep.count("note:legacy-state-not-applicable");
